@@ -11,5 +11,7 @@ def writeDefersDoneFirst : Bool := true
 def filesAppendUnderLock : Bool := true
 /-- setErr takes the error lock -/
 def setErrLocks : Bool := true
+/-- Push: first statement is `if typ := reflect.TypeOf(e); typ != m.typ { return ... }` -/
+def pushChecksTypeFirst : Bool := true
 
 end Biogo.Generated.MorassFacts
